@@ -55,7 +55,7 @@ fn gen_reply_of(rng: &mut Rng, rs: usize, force_kind: Option<u64>) -> (String, V
         p
     };
     let idx = 0x2000u16.to_le_bytes();
-    let kind = force_kind.unwrap_or_else(|| rng.below(9));
+    let kind = force_kind.unwrap_or_else(|| rng.below(10));
     let (name, mut payload): (&str, Vec<u8>) = match kind {
         0 => ("expedited", coe(3, &[0x43, idx[0], idx[1], 1, 1, 2, 3, 4])),
         1 => {
@@ -88,6 +88,16 @@ fn gen_reply_of(rng: &mut Rng, rs: usize, force_kind: Option<u64>) -> (String, V
             ("sdo-info-list", coe(8, &b))
         }
         7 => ("download-response", coe(3, &[0x60, idx[0], idx[1], 1, 0, 0, 0, 0])),
+        8 => {
+            // a normal upload response whose "complete size" field and the amount of data really
+            // present (and announced by the mailbox length) contradict each other
+            let complete = rng.below(40) as u32;
+            let present = rng.usize_below(rs.saturating_sub(16).max(1) + 1);
+            let mut b = vec![0x41, idx[0], idx[1], 1];
+            b.extend_from_slice(&complete.to_le_bytes());
+            b.extend(rng.bytes(present));
+            ("normal-size-contradicts-data", coe(3, &b))
+        }
         _ => {
             let k = rng.usize_below(rs + 8);
             ("random", rng.bytes(k))
@@ -205,11 +215,11 @@ fn run_case(sh: &mut Shard, case: u64, rng: &mut Rng) {
     let nreplies = 1 + rng.usize_below(3);
     let replies: Vec<(String, Vec<u8>)> = if info_session { (0..nreplies).map(|_| gen_reply_of(rng, rs as usize, Some(6))).collect() } else if session { gen_segment_session(rng, rs as usize) } else { (0..nreplies).map(|_| gen_reply(rng, rs as usize)).collect() };
     let refill = rng.chance(1, 4);
-    let entry = if info_session { 3 + rng.below(2) } else if session { 1 } else { rng.below(5) };
+    let entry = if info_session { 3 + rng.below(2) } else if session { *rng.pick(&[1u64, 1, 5]) } else { rng.below(7) };
     if info_session {
         sh.count("family.sdo-info-tiny-mailbox");
     }
-    let entry_name = ["sdo_read_u32", "sdo_read_64", "sdo_write", "sdo_info_list", "sdo_info_quantities"][entry as usize];
+    let entry_name = ["sdo_read_u32", "sdo_read_64", "sdo_write", "sdo_info_list", "sdo_info_quantities", "sdo_read_vec24", "sdo_read_string10"][entry as usize];
     let seed = rng.u64();
     let tags: Vec<String> = replies.iter().map(|r| r.0.clone()).collect();
     let scenario = json!({"case": case, "entry": entry_name, "read_mbx": rs, "refill_forever": refill, "replies": replies.iter().map(|r| format!("{}:{}", r.0, hex(&r.1))).collect::<Vec<_>>()});
@@ -263,6 +273,9 @@ fn run_case(sh: &mut Shard, case: u64, rng: &mut Rng) {
                     let out = match entry {
                         0 => flat(sim.run(sd.sdo_read::<u32>(0x2000, 1)).map(|r| r.map(|v| format!("{v:#x}")))),
                         1 => flat(sim.run(sd.sdo_read::<[u8; 64]>(0x2000, 1)).map(|r| r.map(|v| hex(&v)))),
+                        // variable-length destinations: whatever the device claims, at most the capacity may arrive
+                        5 => flat(sim.run(sd.sdo_read::<heapless::Vec<u8, 24>>(0x2000, 1)).map(|r| r.map(|v| hex(&v)))),
+                        6 => flat(sim.run(sd.sdo_read::<heapless::String<10>>(0x2000, 1)).map(|r| r.map(|v| v.to_string()))),
                         2 => flat(sim.run(sd.sdo_write(0x2000, 1, 0x1234u16)).map(|r| r.map(|_| "written".into()))),
                         3 => flat(sim.run(sd.sdo_info_object_description_list(ObjectDescriptionListQuery::All)).map(|r| r.map(|v| format!("{:?}", v.map(|l| (l.len(), l.iter().take(8).copied().collect::<Vec<_>>())))))),
                         _ => flat(sim.run(sd.sdo_info_object_quantities()).map(|r| r.map(|v| format!("{v:?}")))),
